@@ -248,6 +248,15 @@ func highNonceProfileAt(name string, tier Tier, oracles []explore.Oracle, suffix
 				acts = append(acts, uni.Call(uni.A0, uni.A0, vmcommon.BuiltInFunctionESDTNFTBurn, uni.S, uni.Big(n), uni.Big(1)))
 				acts = append(acts, uni.Multi(uni.A0, uni.C1, []uni.Ent{{Tok: uni.S, Nonce: n, Q: 1}, {Tok: uni.S, Nonce: 1, Q: 1}}))
 			}
+			// NFT-versus-NFT aliasing: (token S||01, nonce 1) has the key bytes of (S, 257) - calls
+			// that name the alias must not move, mint, burn or rewrite the holding of (S, 257)
+			for _, to := range [][]byte{uni.B0, uni.C1} {
+				acts = append(acts, uni.NFTTransfer(uni.A0, to, uni.S1, 1, 1), uni.Multi(uni.A0, to, []uni.Ent{{Tok: uni.S1, Nonce: 1, Q: 1}}))
+			}
+			acts = append(acts, uni.Call(uni.A0, uni.A0, vmcommon.BuiltInFunctionESDTNFTAddQuantity, uni.S1, uni.Big(1), uni.Big(1)),
+				uni.Call(uni.A0, uni.A0, vmcommon.BuiltInFunctionESDTNFTBurn, uni.S1, uni.Big(1), uni.Big(1)),
+				uni.Call(uni.A0, uni.A0, vmcommon.BuiltInFunctionESDTNFTAddURI, uni.S1, uni.Big(1), []byte("x")),
+				uni.Call(uni.A0, uni.A0, vmcommon.BuiltInFunctionESDTNFTUpdateAttributes, uni.S1, uni.Big(1), []byte("zz")))
 			return acts
 		},
 	}
